@@ -353,9 +353,14 @@ func genAdmitCase(r *Rng, i int, k AdmitKnobs) *AdmitCase {
 		if kind == "ctl" {
 			a.Obj = ObjSpec{Kind: "other"}
 		} else {
-			a.Obj = ObjSpec{Kind: pick(r, []string{"other", "nil", "namespace", "pod"}), Pod: pod, NSName: "x"}
+			a.Obj = ObjSpec{Kind: pick(r, []string{"other", "nil", "namespace", "pod", "controller", "controller"}), Pod: pod, NSName: "x"}
 			if (kind == "pod" && a.Obj.Kind == "pod") || (kind == "ns" && a.Obj.Kind == "namespace") {
 				a.Obj.Kind = "other"
+			}
+			if a.Obj.Kind == "controller" { // an object of a workload kind where a pod / a namespace is expected
+				a.Obj.CtlKind = pick(r, controllerKinds)
+				a.Obj.NoTemplate = a.Obj.CtlKind == "replicationcontrollers" && r.Bool()
+				tag("fault.objType.workload")
 			}
 		}
 		tag("fault.objType")
@@ -369,7 +374,12 @@ func genAdmitCase(r *Rng, i int, k AdmitKnobs) *AdmitCase {
 			if kind == "ctl" {
 				a.Old = ObjSpec{Kind: "other"}
 			} else {
-				a.Old = ObjSpec{Kind: pick(r, []string{"other", "nil"})}
+				a.Old = ObjSpec{Kind: pick(r, []string{"other", "nil", "controller"})}
+				if a.Old.Kind == "controller" {
+					a.Old.Pod, a.Old.CtlKind = pod.DeepCopy(), pick(r, controllerKinds)
+					a.Old.NoTemplate = a.Old.CtlKind == "replicationcontrollers" && r.Bool()
+					tag("fault.oldType.workload")
+				}
 			}
 			tag("fault.oldType")
 		}
@@ -415,6 +425,9 @@ func genPopPod(r *Rng, j int, exRC []string) *corev1.Pod {
 	}
 	if r.Chance(1, 3) {
 		p.Spec.Containers[0].SecurityContext = &corev1.SecurityContext{Privileged: bp(true)}
+	}
+	if r.Chance(1, 3) {
+		wellKnownMeta(r, &p.ObjectMeta)
 	}
 	return p
 }
